@@ -16,6 +16,14 @@ these are shown to lie inside the spare capacity of the explicitly passed `dst`.
 namespace Kit.CryptoFrame
 open Kit Kit.SH
 
+/-! values for the non-vacuity examples: an oracle, a heap of four caller buffers, a `Seal` call -/
+def exEnv : Env := ⟨fun i => UInt8.ofNat (i + 1), true, true, true⟩
+def exHeap : Heap := #[Array.replicate 40 7, Array.replicate 16 1, Array.replicate 16 2, Array.replicate 64 9]
+def exCall : Call :=
+  ⟨"aescbcaead.Seal", "A128CBC-HS256", .fixed, 0, "", .oct, exEnv, 0,
+   fun s => if s = "key" then ⟨3, 0, 32, 32⟩ else if s = "dst" then ⟨0, 0, 2, 40⟩
+     else if s = "nonce" then ⟨1, 0, 16, 16⟩ else if s = "plaintext" then ⟨2, 0, 5, 5⟩ else Slice.nil⟩
+
 /-! ## crypto/padding -/
 
 theorem frame_PadPKCS7 (buf : Slice) (size : Int) : ReadOnly (padPKCS7 .fixed buf size) :=
@@ -46,6 +54,9 @@ example : ((padPKCS7 .fixed ⟨0, 2, 3, 8⟩ 4 #[#[1, 2, 3, 4, 5, 6, 7, 8, 9, 10
 
 theorem frame_Wrap (env : Env) (cek : Slice) : ReadOnly (wrap env cek) :=
   readOnly_of_frames (frames_of_sat fun _ => sat_true (sat_wrap env cek))
+
+/-- non-vacuity: a 16-byte key cut out of a larger buffer is wrapped (the model's run succeeds) -/
+example : (wrap exEnv ⟨0, 3, 16, 30⟩ exHeap).1.isOk = true := by decide +kernel
 
 theorem frame_Unwrap (env : Env) (cipherText : Slice) : ReadOnly (unwrap env cipherText) :=
   readOnly_of_frames (frames_of_sat fun _ => sat_true (sat_unwrap env cipherText))
@@ -169,6 +180,13 @@ theorem frame_DecryptSymmetric (env : Env) (ciphertext : Slice) (alg : String) (
   readOnly_of_frames (frames_of_sat fun _ =>
     sat_decryptSymmetric env ciphertext alg key nonce tag associatedData)
 
+/-- non-vacuity: the model's runs of an AES-CBC encryption and an AES-GCM decryption of slices with
+spare capacity succeed (so the theorems are not about calls that always fail early) -/
+example : (encryptSymmetric .fixed exEnv ⟨0, 1, 5, 20⟩ "A128CBC" ⟨.oct, ⟨1, 0, 16, 16⟩⟩ ⟨2, 0, 16, 16⟩
+    Slice.nil exHeap).1.isOk = true := by decide +kernel
+example : (decryptSymmetric .fixed exEnv ⟨0, 1, 5, 20⟩ "A128GCM" ⟨.oct, ⟨1, 0, 16, 16⟩⟩ ⟨2, 0, 12, 16⟩
+    ⟨2, 0, 16, 16⟩ Slice.nil exHeap).1.isOk = true := by decide +kernel
+
 /-- WITNESS (code as found): `ciphertext = append(ciphertext, tag...)` in the AEAD decrypt helper
 stores the tag behind the caller's ciphertext — A128GCM, `ciphertext = b0[0:2:20]`, a 16-byte
 tag: cell 2 of `b0` becomes the first tag byte (0xAA), on a FAILED decryption. -/
@@ -253,6 +271,11 @@ theorem frame_runCall (c : Call) (hv : c.v = .fixed) : Frames (mayWrite c) (runC
     simp only [mayWrite, hfn, hne', hp, dstRange, if_false, if_true]
     rw [hae] at hc ⊢
     simp [hc]
+
+/-- non-vacuity of `frame_runCall` / `frame_Seal_other_arrays`: a `.fixed` call that succeeds,
+whose may-write set is a real range of `dst`'s capacity, with other arrays present -/
+example : exCall.v = .fixed ∧ (runCall exCall exHeap).1.isOk = true ∧ mayWrite exCall = [(0, 2, 34)] ∧
+    1 < exHeap.size ∧ 1 ≠ (exCall.arg "dst").arr := by decide +kernel
 
 /-! ## T1: every exported `[]byte`-taking function found in the source has a frame theorem -/
 
